@@ -20,7 +20,7 @@ use crate::stubs;
 use chia_consensus::fast_forward::fast_forward_singleton;
 use chia_protocol::{Bytes32, Coin};
 use chia_puzzles::SINGLETON_TOP_LAYER_V1_1_HASH;
-use clvm_utils::{curry_tree_hash, tree_hash, TreeHash};
+use clvm_utils::{curry_tree_hash, tree_hash, tree_hash_atom, tree_hash_pair, TreeHash};
 use clvmr::allocator::{Allocator, NodePtr, SExp};
 
 fn sym_hash(fill: u8) -> [u8; 32] {
@@ -97,10 +97,20 @@ fn ff(la: usize) {
     // INNER puzzle: a 3-byte atom
     let (inner, _ib) = sym_heap_atom::<3>(&mut a);
     let puzzle = curried_by_hand(&mut a, modn, &[st, inner]);
-    let genuine_ph: [u8; 32] = tree_hash(&a, puzzle).to_bytes();
+    // the genuine puzzle hash, from hashes alone (tree_hash = the definition: C17; curry_tree_hash
+    // = tree hash of the curried program: C17) -- an allocator traversal per hash would cost
+    // ~100 s of solver time per pair node
+    let mod_th: [u8; 32] = if !genuine_mod {
+        tree_hash_atom(b"not the singleton top layer").to_bytes()
+    } else {
+        SINGLETON_TOP_LAYER_V1_1_HASH
+    };
+    let st_th = tree_hash_pair(tree_hash_atom(&mh), tree_hash_pair(tree_hash_atom(&lid), tree_hash_atom(&lph)));
+    let inner_th = tree_hash_atom(&_ib);
+    let genuine_ph: [u8; 32] = curry_tree_hash(TreeHash::new(mod_th), &[st_th, inner_th]).to_bytes();
     // lineage: the parent coin is a singleton with the same struct and inner puzzle
     let pp = sym_hash(0x46);
-    let mut pih: [u8; 32] = tree_hash(&a, inner).to_bytes();
+    let mut pih: [u8; 32] = inner_th.to_bytes();
     let g_pih = xor2(&mut pih);
     let pamt_b: [u8; 2] = kani::any();
     let amt_b: [u8; 2] = kani::any();
@@ -108,7 +118,7 @@ fn ff(la: usize) {
     kani::assume(pamt_b[0] >= 1 && pamt_b[0] < 0x80 && amt_b[0] >= 1 && amt_b[0] < 0x80);
     let pamt = ((pamt_b[0] as u64) << 8) | pamt_b[1] as u64;
     let amt = ((amt_b[0] as u64) << 8) | amt_b[1] as u64;
-    let parent_ph = curry_tree_hash(TreeHash::new(mh), &[tree_hash(&a, st), TreeHash::new(pih)]);
+    let parent_ph = curry_tree_hash(TreeHash::new(mh), &[st_th, TreeHash::new(pih)]);
     let parent = Coin { parent_coin_info: Bytes32::new(pp), puzzle_hash: Bytes32::new(parent_ph.to_bytes()), amount: pamt };
     let ppn = a.new_atom(&pp).unwrap();
     let pihn = a.new_atom(&pih).unwrap();
@@ -212,5 +222,5 @@ macro_rules! ff_harness {
         fn $name() $body
     };
 }
-ff_harness!(c19_ff_genuine_iff_accepted, 120, { ff(0) });
+ff_harness!(c19t_ff_genuine_iff_accepted, 120, { ff(0) });
 ff_harness!(c19t_ff_genuine_iff_accepted_big_amounts, 120, { ff(1) });
